@@ -21,7 +21,6 @@ type zzPipe struct{ zzStream }
 
 func (p *zzPipe) Send(e *Envelope) error { p.envs = append(p.envs, e); return nil }
 
-
 func (zzConn) SetDeadline(time.Time) error { return nil }
 
 type zzWire struct {
